@@ -697,6 +697,28 @@ Definition chk_step_C14 : step_chk := fun prev x o ob =>
 Definition chk_C14_kv (t : scase * list ostep) : bool :=
   walk chk_step_C14 (snap0 (fst t)) (sc_steps (fst t)) (snd t).
 
+(* removal by expiry is a removal like any other: what a row checker says of Delete, it says of a document that
+   the firing of the timer removed (C05: only the system xattrs stay; C17: the revision goes up by one; ...) *)
+Definition chk_step_expiry (rc : rowchk) : step_chk := fun prev x o ob =>
+  match o with
+  | SExpire =>
+      forallb (fun e =>
+                 let e0 := row_exp (snd e) in
+                 if (0 <? e0) && (e0 <=? x_now x) then
+                   match look (fst e) (sn_rows (os_snap ob)) with
+                   | Some o1 =>
+                       let cid := coll_of_obs o1 0 in
+                       rc (snd (fst e)) cid x KDelete (view_of_obs (snd e)) ROk
+                          (filter (fun f => String.eqb (f_key f) (snd (fst e)) && (f_coll f =? cid)) (os_live ob))
+                          (view_of_obs o1)
+                   | None => true
+                   end
+                 else true) (sn_rows prev)
+  | _ => true
+  end.
+Definition chk_expiry_kv (rc : rowchk) (t : scase * list ostep) : bool :=
+  walk (chk_step_expiry rc) (snap0 (fst t)) (sc_steps (fst t)) (snd t).
+
 (* ------------------------------------------------------------------------------------------ *)
 (* C14 in real time (family ttl): for each key, when a poll last saw it, when a poll first missed it
    (wall-clock milliseconds just before and just after that read), whether a deletion event arrived *)
